@@ -740,15 +740,17 @@ def load_corpus(pid):
 def shrink_case(prop, modname, exe, case, verdict, known, budget=150):
     """greedy delta-debugging using the property's own shrink candidates; keeps the violation key class"""
     cur, curv = case, verdict
-    if hasattr(prop, 'shrink'):
+    t_start = time.time()
+    hangish = 'hang' in str(verdict.get('key', '')) or 'terminate' in str(verdict.get('key', ''))
+    if hasattr(prop, 'shrink') and not hangish:      # a non-terminating case is reported as found: shrinking it costs a time-out per candidate
         steps = 0
         improved = True
-        while improved and steps < budget:
+        while improved and steps < budget and time.time() - t_start < 180:
             improved = False
             cands = list(prop.shrink(cur))[:40]
             if not cands:
                 break
-            ios = run_impl_cases(modname, cands, procs=min(NPROC, len(cands)))
+            ios = run_impl_cases(modname, cands, procs=min(NPROC, len(cands)), recheck_hangs=False)
             mos = run_model(exe, [prop.model_input(c) for c in cands]) if exe else [None] * len(cands)
             steps += len(cands)
             for c, io, mo in zip(cands, ios, mos):
